@@ -155,13 +155,15 @@ def run(ctx, n_override=None):
                 '1-15 integer digits x sign; each amount also divided by 7 and multiplied by 0.333 so that the internal '
                 'precision exceeds the display precision; non-trivial = the reader accepted it and either rounding was needed '
                 '(shown text differs from the exact value) or a mark/quote/decimal-comma feature is present; distinct by text')
-    njournals = n_override or ctx.scale(120, 2500)
+    njournals = n_override or ctx.scale(120, 500)
     model_lines, journals = [], []
     for j in range(njournals):
         ws = gen_journal(rng, rng.randrange(20, 60))
         journals.append(ws)
         model_lines.append(lib.sx(['journal', 'j%d' % j] + [w.text.encode('utf-8') for w in ws]))
-    mout = lib.run_model('C04', model_lines)
+    mout = []
+    for k in range(0, len(model_lines), 60):          # the extracted MPFR model works on 800-bit integers: keep batches small
+        mout += lib.run_model('C04', model_lines[k:k + 60], timeout=1200)
     model = {}
     for l in mout:
         parts = l.split(' ', 2)
